@@ -24,6 +24,9 @@ SeqOf(x) == "Seq" \o x
 (* RecP = {k1: Pair, k2: Int}; PS = (SeqJet, Int)                                     *)
 PackSorts == {"Pair", "Rec", "Nest", "RecP", "PS", "PSP", "RecS", "RecI"}   \* RecI = {0: Int, 1: Int}   \* PSP = (SeqPair, Int); RecS = {k1: PS, k2: Pair}
 ElemSorts == IF Fam = "fused" THEN {"Evt", "Jet", "Int"}
+             ELSE IF Fam = "betaw" THEN {"Evt", "Jet", "Trk"}
+             ELSE IF Fam = "betads" THEN {"Evt", "Int", "Pair"}
+             ELSE IF Fam = "chainf" THEN {"Evt", "Jet", "Int", "Pair", "Rec", "Nest"}
              ELSE IF Fam = "e2eb" THEN {"Evt", "Jet", "Trk", "Int", "SeqInt", "SeqSeqInt"}
              ELSE IF Fam = "mdp" THEN {"Evt", "Jet", "Int", "PS", "RecS"}      \* MetaData wrappers inside packaged values
              ELSE IF Fam = "chainp" THEN {"Evt", "Jet", "Int", "Pair", "PSP", "SeqInt"}   \* nested packaging and
@@ -41,9 +44,10 @@ Fields == { <<"Evt", "met", "Int">>, <<"Evt", "n", "Int">>, <<"Evt", "jets", "Se
 
 (* ------------------------------------------------------------------ *)
 (* production families                                                *)
-Binders == CASE Fam \in {"fuse1", "chain1", "md1", "chainx", "chainp", "mdp", "fused"} -> {"x"}
+Binders == CASE Fam \in {"fuse1", "chain1", "md1", "chainx", "chainp", "mdp", "fused", "chainf"} -> {"x"}
              [] Fam = "helper" -> {"a", "t", "a_1"}     \* (a_1: what an inner binder a is renamed to when it collides)
              [] Fam = "e2eb" -> {"x", "x_1"}
+             [] Fam = "betads" -> {"ds"}        \* a called lambda's parameter named like the (free) dataset name
              [] Fam = "corea" -> {"arg_0", "arg_1", "arg_e"}     \* names the simplifier itself generates / names that look alike
              [] OTHER -> {"x", "y"}
 
@@ -52,6 +56,10 @@ Enabled(prod) ==
                                     "Add", "Cmp", "TupProj", "True"}
       [] Fam = "fuse"  -> prod \in {"Select", "Where", "SelectMany", "First", "Count", "Cmp", "Add"}
       [] Fam = "fused" -> prod \in {"Select", "Where", "SelectMany", "OpDef", "Count"}     \* (comparisons are zero-cost leaves here)
+      \* a filter / selection moved under the binder of a SelectMany while an enclosing CALLED lambda's parameter is live
+      [] Fam = "betaw" -> prod \in {"Beta", "Where", "SelectMany", "First"}
+      [] Fam = "betads" -> prod \in {"Select", "First", "BetaSeq", "Pack", "FirstProj"}
+      [] Fam = "chainf" -> prod \in {"Select", "Where", "Cmp", "Pack", "First", "FirstProj"}
       [] Fam = "corea" -> prod \in {"Select", "Where", "SelectMany", "First", "Count", "Cmp", "Add", "Beta"}
       [] Fam = "fuse1" -> prod \in {"Select", "Where", "SelectMany", "First", "Count", "Cmp", "Add",
                                     "Beta", "TupProj", "DictProj", "If", "MethArgs", "True"}
@@ -132,11 +140,11 @@ BadProjRefs(s, ns, ss) ==
 Leaves(s, ns, ss) ==
     (IF s \in PackSorts THEN {} ELSE VarsOf(s, ns, ss)) \cup FieldRefs(s, ns, ss)
       \cup ProjRefs(s, ns, ss) \cup BadProjRefs(s, ns, ss)
-      \cup (IF s = "SeqEvt" THEN {Name("ds")} ELSE {})
+      \cup (IF s = "SeqEvt" /\ "ds" \notin Range(ns) THEN {Name("ds")} ELSE {})
       \cup (IF s = "Int" THEN {IntC(1)} ELSE {})
       \cup (IF s = "Int" /\ Fam \in {"e2e", "e2et"} THEN {Name("CUT")} ELSE {})        \* a captured module-level constant
       \cup (IF s = "Bool" /\ Enabled("True") THEN {BoolC(TRUE)} ELSE {})
-      \cup (IF s = "Bool" /\ (Fam \in {"comp", "fused"} \/ Rand)      \* (random walks must never dead-end on a Boolean hole)
+      \cup (IF s = "Bool" /\ (Fam \in {"comp", "fused", "betaw"} \/ Rand)      \* (random walks must never dead-end on a Boolean hole)
             THEN {Cmp(">", f, IntC(1)) : f \in VarsOf("Int", ns, ss) \cup FieldRefs("Int", ns, ss)} ELSE {})
 
 Split2(r) == {<<i, r - i>> : i \in 0..r}
@@ -247,6 +255,18 @@ NonLeaf(h) ==
              \cup {CallP(T("lam", "", 1, <<"x", "y">>,
                            <<BinOp("+", BinOp("*", Name("x"), IntC(10)), Name("y")), Hole("Int", 0, ns, ss)>>),
                          <<Hole("Int", r, ns, ss)>>)}
+       ELSE {}) \cup
+      (* a called lambda over a sequence / an event (its parameter may be named like a free name of its argument) *)
+      (IF s \in ElemSorts \cup SeqSorts /\ Enabled("BetaSeq") THEN
+          {CallP(Lam1(x, Hole(s, sp[2], Push(ns, x), Append(ss, SortT(y)))), <<Hole(y, sp[1], ns, ss)>>) :
+              sp \in Split2(r), x \in Binders, y \in {"SeqEvt", "SeqPair", "Evt"} \cap (ElemSorts \cup SeqSorts)}
+       ELSE {}) \cup
+      (* a constant projection of the first element of a sequence of packages *)
+      (IF s = "Int" /\ Enabled("FirstProj") THEN
+          {Sub(Fn("First", <<Hole("SeqPair", r, ns, ss)>>), IntC(i)) : i \in {0, 1}} \cup
+          (IF "Rec" \in ElemSorts
+           THEN {Sub(Fn("First", <<Hole("SeqRec", r, ns, ss)>>), StrC("k1")), Attr(Fn("First", <<Hole("SeqRec", r, ns, ss)>>), "k2")}
+           ELSE {})
        ELSE {}) \cup
       (* a parameter-less called lambda *)
       (IF s = "Int" /\ Enabled("Thunk") THEN {CallP(Lam(<<>>, Hole("Int", r, ns, ss)), <<>>)} ELSE {}) \cup
@@ -454,7 +474,9 @@ Fill(t) ==
 
 RootSorts == CASE Fam = "chainp" -> {"SeqInt", "SeqSeqInt"}
                [] Fam = "mdp" -> {"SeqRecS", "SeqPS", "SeqInt"}
-               [] Fam \in {"idx", "chain", "chain1", "chainx"} -> {"SeqInt"}
+               [] Fam \in {"idx", "chain", "chain1", "chainx", "chainf"} -> {"SeqInt"}
+               [] Fam = "betads" -> {"SeqInt", "Int"}
+               [] Fam = "betaw" -> {"SeqTrk", "SeqJet"}
                [] Fam \in {"agg"} -> {"SeqInt", "Int"}
                [] Fam = "helper" -> {"SeqInt", "SeqJet"}
                [] Fam = "e2e" -> {"SeqInt", "SeqJet", "SeqEvt"}
